@@ -1,4 +1,5 @@
 import TLVerif.Rpcextra.FormatLemmas
+import TLVerif.Rpcextra.FuelLemmas
 /-!
 # C40 — RPC request/response extras are transmitted unchanged
 
@@ -268,6 +269,36 @@ theorem exchange_err (req : Request) (handler : Hctx → Handler) (p : Bytes × 
   rw [e] at this
   rw [this]
   rfl
+
+/-! ## a proxy hop (`forward.go`, outside the anchors of C40 — recorded because it uses `preparePacket`) -/
+
+/-- A request relayed by `HandlerContext.ForwardAndFlush` reaches the final server with the client's query id,
+body and extras (clear-bit fields reset), but with **actor id 0 and without the TL2 marker**, whatever the client
+sent: `forward.go` builds `Request{Body, Extra, queryID}` and copies neither `ActorID` nor `BodyFormatTL2`.
+This is what the code does (reproduced on the real `ForwardAndFlush` by the `rpcextra.fwd` cases); whether a proxy
+is meant to strip the actor is a design question, dropping the TL2 marker makes the final server read a TL2 body as TL1. -/
+theorem forward_hop (req : Request) (p : Bytes × Nat) (p2 : Bytes × Nat)
+    (hb : reqBodyOK req.body = true) (hm : req.extra.mapsOK) (hp : preparePacket req = some p)
+    (hf : forwardRequest (expectedHctx req) = some p2) :
+    viaProxy (wireOf p) = .ok (some (.ok (expectedHctx { req with actorId := 0, tl2 := false }))) :=
+  forward_keeps_extras_drops_actor_and_format req p p2 hb hm hp hf
+
+/-! ## faithfulness of the loop bound -/
+
+/-- The Go loops (`for { … }` over wrappers / result headers) are unbounded; the model drives them with
+`len/4 + 1` units of fuel. That bound is never reached, for any input bytes (valid or malformed): the
+model's `.error .other` for "out of fuel" is dead code, so the model's verdict on every byte string is the
+verdict of the unbounded loop. -/
+theorem loops_never_run_out_of_fuel (h0 : Hctx) (q : UInt64) (r : Bytes) (ex0 : ResExtra) (body : Bytes) :
+    parseWrappers (r.length / 4 + 1) { h0 with queryId := q, request := r } {} ≠ none ∧
+    parseResultExtras (body.length / 4 + 1) ex0 body 0 ≠ none :=
+  ⟨parseInvokeReqFrom_fuel_ok h0 q r, parseResponseExtra_fuel_ok ex0 body⟩
+
+/-- every reader of the extras consumes input, never produces it -/
+theorem readers_consume (r r' : Bytes) :
+    (∀ e, ReqExtra.read r = .ok (e, r') → r'.length ≤ r.length) ∧
+    (∀ e, ResExtra.read r = .ok (e, r') → r'.length ≤ r.length) :=
+  ⟨fun e h => ReqExtra.read_nonInc r e r' h, fun e h => ResExtra.read_nonInc r e r' h⟩
 
 /-! ## the hypotheses are needed, and satisfiable -/
 
